@@ -20,6 +20,12 @@ CORPUS = [
     ("kwempty", "def f(**kw):\n    kw.y\ndef g():\n    f()\n"),
     ("selfrec", "def f(a):\n    a.x\n    f(a)\n"),
     ("chain3", "def a(p):\n    b(p)\ndef b(q):\n    q.bq\n    c(q)\ndef c(r):\n    r.cr = 1\n    del r.cd\n"),
+    # round 3: a keyword spelled like a positional-only / *args / **kwargs parameter goes into **kwargs (three levels)
+    ("kwclash", "def log(msg, /, *rest, **meta):\n    msg.text = 1\n    return rest.n, meta.level\ndef mid(m, other):\n    return log(m, msg=other, rest=other, meta=m)\ndef top(a, b):\n    return mid(a, b)\n"),
+    # round 3: recursion with non-identity arguments: one unrolling in the function and in every caller
+    ("swaprec", "def swap(a, b):\n    a.left = b.right\n    return swap(b, a)\ndef use(x, y):\n    return swap(x, y)\ndef outer(u, v):\n    return use(v, u)\n"),
+    ("mutualrec", "def ping(a, b):\n    a.pi\n    pong(b, b=a)\ndef pong(c, b):\n    del c.po\n    ping(b, c)\ndef use(x, y):\n    ping(x, y)\n"),
+    ("cycle3", "def f(a, b, c):\n    a.fa = 1\n    g(b, c, a)\ndef g(p, q, r):\n    p.gp\n    h(q, r, p)\ndef h(x, y, z):\n    del x.hx\n    f(y, z, x)\n"),
 ]
 
 
@@ -40,6 +46,47 @@ def sigs_from_source(src):
                 "kwarg": a.kwarg.arg if a.kwarg else None,
             }
     return out
+
+
+class ProgGen3(rl.ProgGen):
+    """round 3: callees over all five parameter kinds are also called with keywords spelled like a
+    positional-only / *args / **kwargs parameter of a callee that has **kwargs (Python puts them into
+    **kwargs: `record(ev, event=x)` for `def record(event, /, **fields)`), with a value that differs
+    from the positional one; recursive calls (self / back edges) pass a non-identity selection of the
+    caller's parameters."""
+
+    def signature(self, i):
+        sig = super().signature(i)
+        r = self.rng
+        if not self.clean and sig["kwarg"] is None and r.random() < 0.25:
+            sig["kwarg"] = f"kw{i}"
+        return sig
+
+    def call_to(self, caller_i, caller_params, callee_i, sig):
+        r = self.rng
+        text = super().call_to(caller_i, caller_params, callee_i, sig)
+        if callee_i <= caller_i and len(caller_params) >= 2:
+            for _ in range(8):      # a recursive call that passes the parameters through unchanged unrolls to nothing new
+                inner = text[text.index("(") + 1:-1]
+                if [a.strip() for a in inner.split(",")][:len(caller_params)] != list(caller_params):
+                    break
+                text = super().call_to(caller_i, caller_params, callee_i, sig)
+        if sig["kwarg"] and not self.clean:
+            inner = text[text.index("(") + 1:-1]
+            parts = [a.strip() for a in inner.split(",")] if inner.strip() else []
+            npos = len([a for a in parts if "=" not in a and not a.startswith("*")])
+            clash = [p["name"] for p in sig["posonly"][:npos]] + [x for x in (sig["vararg"], sig["kwarg"]) if x]
+            given = dict(zip([p["name"] for p in sig["posonly"]], parts))
+            for name in clash:
+                if r.random() < 0.4 and not any(a.startswith(name + "=") for a in parts):
+                    v = self.arg_expr(caller_params, r.choice(["param", "param", "attr"]), callee_i)
+                    for _ in range(6):
+                        if v != given.get(name):
+                            break
+                        v = self.arg_expr(caller_params, r.choice(["param", "attr"]), callee_i)
+                    parts.append(f"{name}={v}")
+            text = text[:text.index("(") + 1] + ", ".join(parts) + ")"
+        return text
 
 
 def signature_of(bad, feats):
@@ -85,7 +132,17 @@ def run(tier, seed, build):
                 "mixes everything (compound arguments at depth, imported classes, variadic callees, repeated calls, recursion) and "
                 "a deviation there counts as a known finding only under its syntactic feature AND if the Lean project model "
                 "(Project.run: every file's root context and walk, location-aware resolver, one store) prints the same entry; "
-                "the model's document must equal the real one on every project")
+                "the model's document must equal the real one on every project. Round 3, in every stage: callees over all "
+                "five parameter kinds called with keywords spelled like their positional-only / *args / **kwargs parameters "
+                "(Python: into **kwargs); recursion of every kind of callable (function, lambda, static method calling itself, "
+                "static <-> function, static <-> static of one class, initialiser constructing its own class, longer cycles) "
+                "with non-identity bare arguments in a `cycle` fragment whose only feature is the cycle, judged by ONE "
+                "UNROLLING in the callable and in every caller (paths that visit no callable twice + the closing call's own "
+                "accesses) <= results <= least fixpoint of the closure; every call statement in any position a call can sit in "
+                "(conditions, loop headers, with items, comprehension iterables / conditions / elements, return / yield / "
+                "yield from / await, parameter-less lambdas, f-strings, assert, raise, match subjects / guards, operands of every "
+                "operator, displays, try handlers) and under any compound statement; the same single-file modules also through "
+                "the pipeline model (diagnostics in order)")
     rng = random.Random(seed)
     n_rand, n_clean = (250, 250) if tier == "quick" else (4000, 3000)
     programs = [(name, src) for name, src in CORPUS]
@@ -93,7 +150,7 @@ def run(tier, seed, build):
         src, _ = rl.ProgGen(rng, clean=True).build()
         programs.append((f"clean{i}", src))
     for i in range(n_rand):
-        src, _ = rl.ProgGen(rng).build()
+        src, _ = (ProgGen3 if i % 2 else rl.ProgGen)(rng).build()
         programs.append((f"rand{i}", src))
 
     model = common.Model()
@@ -108,6 +165,35 @@ def run(tier, seed, build):
         batch.append(("results", {**snap, "rounds": 1}))
         metas.append((label, src, snap, im, sigs))
     outs = model.batch(batch)
+    # ---- the Lean SPEC the theorems are about (`Spec.derive`, `Spec.unrollRoot`) against the harness' own closure oracle
+    # (`resultslib.Closure.derive`, `resultslib.unroll_once`), on every program: a mismatch is an inconsistency of my
+    # machinery (exit 2), never a verdict about rattr
+    spec_depth = 3
+    spec_reqs = []
+    for (label, src, snap, im, sigs) in metas:
+        cl0 = rl.Closure(snap, sigs, 0)
+        spec_reqs.append(("c03_spec", {"fns": snap["fns"], "resolve": snap["resolve"], "depth": spec_depth,
+                                       "sigs": [cl0.sig_of(k) for k in range(len(snap["fns"]))]}))
+    for (label, src, snap, im, sigs), so in zip(metas, model.batch(spec_reqs)):
+        if "__error__" in so:
+            res.internal_errors.append({"stage": "c03_spec", "label": label, "error": str(so["__error__"])[:300]})
+            continue
+        cl = rl.Closure(snap, sigs, spec_depth)
+        for k in range(len(snap["fns"])):
+            want_d = cl.derive(k, spec_depth)
+            want_u = rl.unroll_once(snap, sigs, k)
+            for kind in ("gets", "sets", "dels"):
+                a = sorted({f for f, _ in want_d[kind]})
+                b = sorted(set(so["derive"][k][kind]))
+                if a != b:
+                    res.internal_errors.append({"stage": "c03_spec:derive", "label": label, "source": src, "fn": k, "kind": kind,
+                                                "python": a, "lean": b})
+                a = sorted(want_u[kind])
+                b = sorted(set(so["unroll"][k][kind]))
+                if a != b:
+                    res.internal_errors.append({"stage": "c03_spec:unroll", "label": label, "source": src, "fn": k, "kind": kind,
+                                                "python": a, "lean": b})
+        res.count("spec:lean-vs-python:compared")
     for (label, src, snap, im, sigs), mo in zip(metas, outs):
         n_res = sum(1 for _, k in snap["resolve"] if isinstance(k, int))
         if n_res:
@@ -134,7 +220,7 @@ def run(tier, seed, build):
             for r in rl.canon_model_round(mo["rounds"][0])["results"]:
                 model_by_key[r["key"]] = r
         impl_by_key = {r["key"]: r for r in im["rounds"][0]["results"]}
-        for k, bad, feats in rl.judge_results(snap, sigs, im["rounds"][0]):
+        for k, bad, feats in rl.judge_results(snap, sigs, im["rounds"][0], unroll=True, kwarg_clash_is_finding=False):
             fl = "clean" if not feats else "+".join(sorted(feats))
             if bad is None:
                 res.count("verdict:holds|" + ("clean" if not feats else "defect-feature-present"))
@@ -155,19 +241,31 @@ def run(tier, seed, build):
     # -> result generation -> printed document, against the real `rattr.__main__.main` (in-process) and,
     # for a sample, the real CLI in a subprocess
     from props import pipeline
+    from props import c03proj
+    # round 3: single-file modules of the project generator (five-kind signatures with keywords that clash with
+    # positional-only names, recursion of every kind of callable, calls in every statement position incl. match guards)
+    # also go through the single-file pipeline model: outcome, document, DIAGNOSTICS in order, IR after generation
+    prng = random.Random(seed + 5507)
+    extra = []
+    for i in range(24 if tier == "quick" else 320):
+        files, target, _ = c03proj.gen_project(prng, ("cycle", "depth1", "tree", "wild")[i % 4], n_modules=0)
+        if target == "target.py":
+            extra.append((target, files[target]))
     pipeline.run_pipeline_stage(res, random.Random(seed + 7103), 60 if tier == "quick" else 800, model,
-                                cli_sample=6 if tier == "quick" else 40, class_targets=True)
+                                cli_sample=6 if tier == "quick" else 40, class_targets=True, extra=extra)
     # ---- projects (target + followed local modules): Tie B against the Lean project model + the source-level oracle end to end through main() / the CLI with --follow-imports 1,
     # judged by a closure oracle computed from the SOURCE TEXT of every file (module-local resolution of callees,
     # the instance an initialiser is bound to = the spelled assignment target)
     from props import c03proj
-    c03proj.run_project_stage(res, random.Random(seed + 9241), 120 if tier == "quick" else 2400, model,
-                              cli_sample=8 if tier == "quick" else 80)
+    c03proj.run_project_stage(res, random.Random(seed + 9241), 160 if tier == "quick" else 2400, model,
+                              cli_sample=8 if tier == "quick" else 80, modes=("tree", "depth1", "cycle", "wild"))
     res.assumptions = [
         "own IRs are taken from the real analyser (C01/C02 are about them); the resolver is the real find_call_target_and_ir (C06/C08/C11/C12 are about it)",
         "binding oracle = real CPython calls (see C04)",
         "[interp] a call Python rejects contributes no demanded substitution",
         "project stage: own accesses, call sites, callee resolution (Python's module-level scoping) and binding (CPython) are all read from the sources by py/props/c03proj.py; only import forms rattr resolves are generated (un-aliased from-imports, `import m [as a]`, `from p import m`), static methods are called after their class is defined; [interp] an instance that is not stored has no expression for `self`",
+        "[interp] a static method is resolvable from its own body and from every body the file walk analyses later (initialiser first, then the static methods in source order); a call to a static method registered later is unresolvable for rattr (the C08 row `...static-method:callers-first`) and contributes no demanded substitution; names bound by match patterns and `except ... as` are strings in the AST and are not judged",
+        "a keyword spelled like a positional-only / *args / **kwargs parameter of a callee with **kwargs is NOT a leniency feature: the pinned code diagnoses the call (C04's finding) but binds it as Python does (`C03_swaps_are_binding_inside_E1`)",
         "pipeline stage: follow-imports 0, no starred imports; location facts (module found / blacklisted / excluded names) from the real locator functions; modules whose document depends on CPython's hash order of equal-named Call symbols are skipped (counted)",
     ]
     return res
@@ -185,6 +283,6 @@ def replay(path):
     im = rl.run_impl(file_ir)
     print(src)
     print(json.dumps(im, indent=1))
-    for v in rl.judge_results(snap, sigs_from_source(src), im["rounds"][0]):
+    for v in rl.judge_results(snap, sigs_from_source(src), im["rounds"][0], unroll=True, kwarg_clash_is_finding=False):
         print(v)
     return 0
